@@ -246,6 +246,7 @@ impl PendingSubscriptionSink {
 		// The same message is sent twice here because one is sent directly to the transport layer and
 		// the other one is sent internally to accept the subscription.
 		self.inner.send(response.to_json()).await.map_err(|_| PendingSubscriptionAcceptError)?;
+		crate::verif_point!("server.sub.accept.between_sends");
 		self.subscribe.send(response).map_err(|_| PendingSubscriptionAcceptError)?;
 
 		if success {
